@@ -5,7 +5,7 @@
    touching the PC.  Statements only (proofs in Proofs/StepInstancesMul.v). *)
 From Coq Require Import ZArith Bool List.
 From ArmV Require Import Lib.PyZ Lib.Monad Lib.Machine Spec.Pseudocode Spec.Arch Spec.MachineView Spec.Branches Spec.StepFrame
-  Spec.OperandSpec Spec.Arith Proofs.StateLemmas Proofs.CondProofs Proofs.GuardProofs Proofs.DPLemmas Proofs.StepProofs Proofs.StepInstancesMul.
+  Spec.OperandSpec Spec.Arith Spec.Arith2 Proofs.StateLemmas Proofs.CondProofs Proofs.GuardProofs Proofs.DPLemmas Proofs.StepProofs Proofs.StepInstancesMul Proofs.StepInstancesMla.
 From Gen Require Import enums opsyn core exec conc decoders step.
 Import ListNotations.
 Open Scope Z_scope.
@@ -43,3 +43,27 @@ Theorem C09_clz_a1_step cfg s w s1 :
   pc_of (AdvancePC (it_step_after s1 s2)) = add32 (pc_of s1) (opcode_len s1 / 8).
 Proof. exact (clz_a1_step cfg s w s1). Qed.
 Print Assumptions C09_clz_a1_step.
+
+(* MLA{S}<c> Rd, Rn, Rm, Ra (ARM A1: cond 0000 001S Rd Ra Rm 1001 Rn) and MLS<c> Rd, Rn, Rm, Ra (ARM A1: cond 0000 0110 Rd Ra Rm 1001 Rn),
+   the four registers in r0-r12 and pairwise different (proofs in Proofs/StepInstancesMla.v) *)
+Theorem C09_mla_a1_step cfg s w s1 :
+  ArmV6_fetch_instruction cfg s = Ok w s1 ->
+  0 <= w < 2 ^ 32 -> is_mla_a1 w -> iset_of s1 = 0 -> ictx cfg s1 -> cond_holds s1 ->
+  let d := bits w 19 16 in let a := bits w 15 12 in let n := bits w 3 0 in let m := bits w 11 8 in
+  let op := (code_Mla, [w; bit w 20; m; a; d; n]) in
+  let s2 := Mla_sem (cfg_arch_version cfg) (begin_instr s1 op) (bit w 20) m a d n in
+  ArmV6_emulate_cycle cfg s = Ok tt (AdvancePC (it_step_after s1 s2)) /\
+  pc_of (AdvancePC (it_step_after s1 s2)) = add32 (pc_of s1) (opcode_len s1 / 8).
+Proof. exact (mla_a1_step cfg s w s1). Qed.
+Print Assumptions C09_mla_a1_step.
+
+Theorem C09_mls_a1_step cfg s w s1 :
+  ArmV6_fetch_instruction cfg s = Ok w s1 ->
+  0 <= w < 2 ^ 32 -> is_mls_a1 w -> iset_of s1 = 0 -> ictx cfg s1 -> cond_holds s1 ->
+  let d := bits w 19 16 in let a := bits w 15 12 in let n := bits w 3 0 in let m := bits w 11 8 in
+  let op := (code_Mls, [w; m; a; d; n]) in
+  let s2 := Mls_sem (cfg_arch_version cfg) (begin_instr s1 op) m a d n in
+  ArmV6_emulate_cycle cfg s = Ok tt (AdvancePC (it_step_after s1 s2)) /\
+  pc_of (AdvancePC (it_step_after s1 s2)) = add32 (pc_of s1) (opcode_len s1 / 8).
+Proof. exact (mls_a1_step cfg s w s1). Qed.
+Print Assumptions C09_mls_a1_step.
